@@ -92,9 +92,27 @@ def gen_boundary_params(rng):
             "leaf": rng.choice([0, 0, 1, 2]), "cache": rng.choice([0, 1, 2, 5]), "rebal": rng.below(2), "seed": rng.below(1000)}
 
 
+def old_ctor():
+    """does the tree under test have the GNAT constructor of before /repo 77efe5ce5 (repair of F400: degrees clamped to
+    >= 1)?  Decided from its source; the model then runs `Gnat.initOld` (header `ctor=old`)."""
+    try:
+        src = open(os.path.join(core.REPO, "src", "ompl", "datastructures", "NearestNeighborsGNAT.h")).read()
+    except OSError:
+        return False
+    return "degree_(std::max(degree, 1u))" not in src
+
+
+def with_ctor(script):
+    """append `ctor=old` to the header of a GNAT script when the tree under test has the old constructor."""
+    if script and script[0].split()[1:2] and "kind=gnat" in script[0] and "ctor=" not in script[0] and old_ctor():
+        return [script[0] + " ctor=old"] + script[1:]
+    return script
+
+
 def degenerate(kv):
-    """parameterisations outside ParamsOK (Props/C10.lean: gnat_ctor_establishes_inv): degree_ or minDegree_ is 0."""
-    return kv["kind"].startswith("gnat") and min(int(kv["deg"]), int(kv["min"])) == 0
+    """degree or minDegree 0 under the OLD constructor (outside ParamsOK, finding F400): the model says nothing there, the
+    oracle alone judges.  With the repaired constructor every argument vector is inside the model (lock-step)."""
+    return kv["kind"].startswith("gnat") and kv.get("ctor") == "old" and min(int(kv["deg"]), int(kv["min"])) == 0
 
 
 def gen_degenerate(rng, kind, metric, dname):
@@ -1108,10 +1126,10 @@ def judge(ck, hbin, script, tag, lock):
     out, res = evaluate(ck, hbin, script, reuse)
     kv = parse_header(script[0])
     corr = None
-    degen = degenerate(kv)      # outside ParamsOK: the model (and its theorems) say nothing; the oracle alone judges
-    if degen:
+    degen = degenerate(kv)      # old constructor, degree 0: outside ParamsOK, the model says nothing; the oracle alone judges
+    if kv["kind"].startswith("gnat") and min(int(kv["deg"]), int(kv["min"])) == 0:
         with lock:
-            ck.count("gnat:degenerate-params-oracle-only")
+            ck.count("gnat:degenerate-params-oracle-only" if degen else "gnat:degree-or-minDegree-0-in-lock-step")
     if res["fail"] is None and not degen:
         corr = correspondence(ck, script, out)
     if kv["kind"] == "gnat" and res["fail"] is None and not degen:
@@ -1416,6 +1434,8 @@ def run(ck):
             prm = gen_params(r, safe=(j % 3 != 2)) if kind.startswith("gnat") else None
             nops = r.choice([25, 60, 120])
             jobs.append((gen_script(r, kind, metric, prm, dname, nops), "random-" + dname))
+    jobs = [(with_ctor(sc), tag) for sc, tag in jobs]
+    ck.count("gnat-constructor-variant:" + ("old (before 77efe5ce5)" if old_ctor() else "repaired (77efe5ce5)"))
     with concurrent.futures.ThreadPoolExecutor(max_workers=int(os.environ.get("VERIF_WORKERS", "8"))) as ex:
         futs = [ex.submit(judge, ck, hbin, s, tag, lock) for s, tag in jobs]
         futs += [ex.submit(judge_kc, ck, hbin, s, lock) for s in kcjobs]
@@ -1441,7 +1461,7 @@ def replay(ck, data):
         return rcode
     hbin = build(ck)
     ck.lean_build([DRIVER])
-    script = data["script"]
+    script = with_ctor(data["script"])
     if any(ln.startswith("kc ") for ln in script[1:]):
         metric = parse_header(script[0])["metric"]
         out, rc, err = run_impl(ck, hbin, script)
